@@ -99,30 +99,41 @@ RECURSIVE DropUnfit(_)
 DropUnfit(q) == IF q # <<>> /\ ~Fits(Head(q).size) THEN DropUnfit(Tail(q)) ELSE q
 
 \* the packet assembler offers `space` remaining bytes: at most ONE whole datagram becomes ONE frame.
-\*   with-length form (0x31) when the length field also fits, else no-length form (0x30) preceded by
-\*   padding so that the frame ends exactly at the end of the packet ("padding first").
-\* D1 (code): the form is chosen from the remaining space only; the peer's limit is not consulted.
-\* D2 (code): a head datagram that fits no packet stays queued forever and blocks the ones behind it.
-Pack(space) ==
-    /\ LET q == IF Intended THEN DropUnfit(queue) ELSE queue
+\* The form is the implementation's choice (wl, pad) as long as it is legal:
+\*   with-length form (0x31): padding + type + length + payload fit the space;
+\*   no-length form (0x30): the frame must end exactly at the end of the packet, so padding goes FIRST.
+\* The head datagram stays queued only when not even type + payload fit the space.
+\* D1 (code): the form is chosen from the remaining space only; the peer's limit is not consulted
+\*            (the Intended design never picks a form whose frame exceeds the limit).
+\* D2 (code): a head datagram that fits no packet stays queued forever and blocks the ones behind it
+\*            (the Intended design discards it).
+EffQueue == IF Intended THEN DropUnfit(queue) ELSE queue
+Pack(space, wl, pad) ==
+    /\ LET q == EffQueue
            fitq == SomeFits(queue)
        IN
        IF err THEN res' = [op |-> "pack", ret |-> "closed", space |-> space, fitq |-> FALSE] /\ UNCHANGED <<queue, wire, net>>
        ELSE IF q = <<>> THEN res' = [op |-> "pack", ret |-> "empty", space |-> space, fitq |-> fitq]
                              /\ queue' = q /\ UNCHANGED <<wire, net>>
        ELSE LET h == Head(q)
-                n == Monus(space, h.size)
-                withLen == n >= 1 + VL(h.size) /\ (Intended => FSize(h.size, TRUE) <= peerMax)
-                f == [id |-> h.id, size |-> h.size, withLen |-> withLen, pad |-> IF withLen THEN 0 ELSE n - 1, pm |-> peerMax]
-            IN IF n = 0
+                f == [id |-> h.id, size |-> h.size, withLen |-> wl, pad |-> pad, pm |-> peerMax]
+            IN IF space < 1 + h.size
                THEN res' = [op |-> "pack", ret |-> "congestion", space |-> space, fitq |-> fitq]
                     /\ queue' = q /\ UNCHANGED <<wire, net>>
-               ELSE /\ res' = [op |-> "pack", ret |-> "ok", space |-> space, fitq |-> fitq, f |-> f,
-                               used |-> f.pad + FSize(f.size, f.withLen)]
+               ELSE /\ wl => pad + FSize(h.size, TRUE) <= space
+                    /\ ~wl => pad + FSize(h.size, FALSE) = space
+                    /\ (Intended /\ wl) => FSize(h.size, TRUE) <= peerMax
+                    /\ res' = [op |-> "pack", ret |-> "ok", space |-> space, fitq |-> fitq, f |-> f,
+                               used |-> pad + FSize(h.size, wl)]
                     /\ queue' = Tail(q)
                     /\ wire' = Append(wire, f)
                     /\ net' = Append(net, f)
     /\ UNCHANGED <<peerMax, localMax, maxPkt, hasWriter, hasReader, err, nextId, acc, rq, got>>
+
+\* what DatagramOutgoing::try_load_data_into chooses: the length is encoded whenever it fits
+CodeWl(space) == queue # <<>> /\ space >= Head(queue).size + 1 + VL(Head(queue).size)
+CodePad(space) == IF queue = <<>> \/ CodeWl(space) THEN 0 ELSE Monus(space, Head(queue).size + 1)
+PackAsCode(space) == Pack(space, CodeWl(space), CodePad(space))
 
 \* the packet carrying the i-th frame in flight is lost (datagrams are never retransmitted)
 Lose(i) ==
